@@ -257,14 +257,15 @@ impl Context {
     }
 
     pub proof fn lemma_node_ok(&self, r: ExprRef)
-        requires self.wf(), self.has(r),
+        requires self.wf_core(), self.has(r),
         ensures self.node_ok(r),
     {
         reveal(Context::all_nodes_ok);
     }
 
-    /// representation invariant of the context as seen through its API
-    pub open spec fn wf(&self) -> bool {
+    /// representation invariant of the context as seen through its API, without the two cached constants
+    /// (this is what holds while `Context::default` is still building them)
+    pub open spec fn wf_core(&self) -> bool {
         &&& self.all_nodes_ok()
         &&& self.rep()
         &&& self.nodes().dom().finite()
@@ -274,17 +275,30 @@ impl Context {
         &&& forall|l: BVLitValue| #[trigger] self.lit_interned(l) ==> self.lit_of(l.0.width, self.lit_v(l)) == l
         // the interner maps the numbers 0..7 to the indices 0..7 (nodes.rs is_true / is_false rely on it)
         &&& forall|l: BVLitValue| #[trigger] self.lit_interned(l) ==> ((l.0.index == 0) <==> (self.lit_v(l) == 0)) && ((l.0.index == 1) <==> (self.lit_v(l) == 1))
-        // cached constants
+    }
+
+    /// the cached constants are the literals true and false
+    pub open spec fn consts_ok(&self) -> bool {
         &&& self.has(self.true_ref()) && self.has(self.false_ref())
         &&& self.ty(self.true_ref()) == Type::BV(1) && self.den(self.true_ref()) == d_lit(1, 1)
         &&& self.ty(self.false_ref()) == Type::BV(1) && self.den(self.false_ref()) == d_lit(1, 0)
     }
 
-    /// FRAME of every mutating operation: nothing that existed is changed
-    pub open spec fn extends(&self, old: &Context) -> bool {
+    /// representation invariant of the context as seen through its API
+    pub open spec fn wf(&self) -> bool {
+        self.wf_core() && self.consts_ok()
+    }
+
+    /// nothing that existed is changed: nodes, types, denotations, interned literals
+    pub open spec fn frame(&self, old: &Context) -> bool {
         &&& forall|r: ExprRef| #[trigger] old.has(r) ==> self.has(r) && self.nodes()[r] == old.nodes()[r]
                 && self.den(r) == old.den(r) && self.ty(r) == old.ty(r)
         &&& forall|l: BVLitValue| #[trigger] old.lit_interned(l) ==> self.lit_interned(l) && self.lit_v(l) == old.lit_v(l)
+    }
+
+    /// FRAME of every mutating operation of the API: nothing that existed is changed, the cached constants are the same references
+    pub open spec fn extends(&self, old: &Context) -> bool {
+        &&& self.frame(old)
         &&& self.true_ref() == old.true_ref() && self.false_ref() == old.false_ref()
     }
 
@@ -300,9 +314,9 @@ impl Context {
     /// looking at a node of a well-formed context tells what the node is *and* that it is well-typed (proved from wf)
     pub fn node(&self, e: ExprRef) -> (r: &Expr)
         requires self.has(e),
-        ensures *r == self.nodes()[e], self.wf() ==> self.node_ok(e),
+        ensures *r == self.nodes()[e], self.wf_core() ==> self.node_ok(e),
     {
-        proof { if self.wf() { self.lemma_node_ok(e); } }
+        proof { if self.wf_core() { self.lemma_node_ok(e); } }
         self.node_raw(e)
     }
 }
@@ -320,7 +334,7 @@ pub open spec fn same_kids(ctx: &Context, children: Seq<ExprRef>, e: ExprRef) ->
 
 /// postcondition shared by the node-creating builders: frame, invariant, and the node that `r` now denotes
 pub open spec fn built(old: &Context, new: &Context, r: ExprRef, node: Expr, t: Type, d: Den) -> bool {
-    new.extends(old) && new.wf() && new.has(r) && new.nodes()[r] == node && new.ty(r) == t && new.den(r) == d && new.den_sorted(r)
+    new.extends(old) && new.wf_core() && (old.consts_ok() ==> new.consts_ok()) && new.has(r) && new.nodes()[r] == node && new.ty(r) == t && new.den(r) == d && new.den_sorted(r)
 }
 
 /// postcondition of the operator builders: frame, invariant, and what the result denotes (not which node represents it)
